@@ -397,9 +397,9 @@ pub struct OuterFields { pub total_mpp_amount_msat: u64 }
     r matches Ok(p) ==> p.id == trampoline_payloads_of(*blinded_tail, *recipient_onion, cur_block_height, *keysend_preimage)
         && final(trampoline_outer_onion).total_mpp_amount_msat == outer_total_of(*blinded_tail, *recipient_onion),
 //@mutant keysend_preimage_left_out_of_the_trampoline_onion
-    cur_block_height, keysend_preimage,
+    recipient_onion, cur_block_height, keysend_preimage, )?; trampoline_outer_onion
 //@with
-    cur_block_height, &None,
+    recipient_onion, cur_block_height, &None, )?; trampoline_outer_onion
 //@end
 //@extract lightning/src/ln/onion_utils.rs :: fn create_payment_onion_internal
 //@slice R15
